@@ -139,6 +139,8 @@ struct Solver {
     nchecks: u64,
     pushed_for_diversification: u32,
     fault: Option<(String, u64)>,
+    /// fault armed at the m-th command that bears no response (counted across sessions through `<counter>.seq`)
+    cmd_fault: Option<(String, u64)>,
     counter_file: Option<String>,
 }
 
@@ -340,6 +342,31 @@ impl Solver {
         }
     }
 
+    /// a command that bears no response: returns true if a fault was injected (the command is then not executed)
+    fn command_fault_point(&mut self, text: &str) -> bool {
+        let Some(f) = self.counter_file.clone() else { return false };
+        let seq = format!("{f}.seq");
+        let m = std::fs::read_to_string(&seq).unwrap_or_default().bytes().filter(|b| *b == b'C').count() as u64;
+        if let Ok(mut k) = std::fs::OpenOptions::new().create(true).append(true).open(&seq) {
+            let _ = write!(k, "C");
+        }
+        let Some((kind, at)) = self.cmd_fault.clone() else { return false };
+        if m != at {
+            return false;
+        }
+        self.log(json!({"fault": kind, "at_command": at, "cmd": text}));
+        let msg = "injected-command-fault-message-with-(parens)";
+        match kind.as_str() {
+            "cmd-error" => out(&format!("(error \"{msg}\")")),
+            "cmd-error-exit" => {
+                out(&format!("(error \"{msg}\")"));
+                std::process::exit(1);
+            }
+            _ => std::process::exit(0),
+        }
+        true
+    }
+
     /// response-bearing point: returns true if a fault was injected (and the normal answer must not be sent)
     fn fault_point(&mut self, kind_of_point: &str) -> bool {
         let n = match &self.counter_file {
@@ -349,6 +376,9 @@ impl Solver {
                 // which kind of response each point is (read by the fault-enumeration check after the fault-free run)
                 if let Ok(mut k) = std::fs::OpenOptions::new().create(true).append(true).open(format!("{f}.kinds")) {
                     let _ = writeln!(k, "{kind_of_point}");
+                }
+                if let Ok(mut k) = std::fs::OpenOptions::new().create(true).append(true).open(format!("{f}.seq")) {
+                    let _ = write!(k, "R");
                 }
                 cur
             }
@@ -590,6 +620,9 @@ impl Solver {
             }
         };
         let i = self.cmd_index;
+        if !matches!(cmd, Cmd::CheckSat | Cmd::CheckSatAssuming(_) | Cmd::GetValue(_) | Cmd::GetUnsatAssumptions | Cmd::Exit) && self.command_fault_point(&text) {
+            return true;
+        }
         match cmd {
             Cmd::SetOption(..) | Cmd::SetInfo => self.log(json!({"i": i, "cmd": text, "ok": true})),
             Cmd::SetLogic(l) => {
@@ -750,6 +783,10 @@ fn main() {
         nchecks: 0,
         pushed_for_diversification: 0,
         fault,
+        cmd_fault: std::env::var("REFSOLVER_CMD_FAULT").ok().and_then(|f| {
+            let (k, n) = f.rsplit_once('@')?;
+            Some((k.to_string(), n.parse().ok()?))
+        }),
         counter_file: std::env::var("REFSOLVER_COUNTER").ok(),
     };
     s.log(json!({"session": persona, "seed": seed}));
